@@ -67,7 +67,11 @@ func c20Compare(c *Ctx, root, pattern string, absolute bool, allFiles []string, 
 		c.Nontrivial(1)
 	}
 	var got []string
-	pi := guard(func() { got = files.ParsePath(arg).GetFileList(root) })
+	start := root
+	if absolute && len(pattern)%2 == 1 {
+		start = "/nonexistent-start-directory" // an absolute pattern does not depend on where the walk is started
+	}
+	pi := guard(func() { got = files.ParsePath(arg).GetFileList(start) })
 	rec := map[string]any{"kind": "glob", "pattern": pattern, "absolute": absolute, "tree": what}
 	if pi != nil {
 		c.Violation("PANIC "+pi.Site, fmt.Sprintf("ParsePath(%q).GetFileList panics: %s", pattern, pi.Msg), rec)
@@ -201,6 +205,8 @@ func runC20(c *Ctx) {
 	if c.Level("tree") {
 		var pats []string
 		pats = append(pats, fsegs...)
+		// a pattern ending in a slash has an empty file segment: it names no file
+		pats = append(pats, "a/", "a*/", "*/", "ab/a*/", "af/", "*f/")
 		for _, d := range dsegs {
 			for _, f := range fsegs {
 				pats = append(pats, d+"/"+f)
